@@ -278,7 +278,7 @@ def spec_C03(tier):
 
 def spec_C14(tier):
     jobs, bounds = parse_jobs(tier, prefix="parseNil")
-    j3, b3 = sap_jobs(tier, scripts=(5, 6))
+    j3, b3 = sap_jobs(tier, scripts=(5, 6, 7))
     jobs += j3
     bounds["GSAP/OSAP (bounded histories)"] = b3
     return {"jobs": jobs, "bounds": bounds, "assumptions": PARSE_ASSUME + SAP_ASSUME, "outside": PARSE_OUTSIDE,
@@ -490,7 +490,7 @@ def sap_jobs(tier, kinds=("gsap", "osap"), scripts=(0, 1, 2, 3, 4), N=None, lite
             for sc in scripts:
                 ks = [0] if sc in (0, 5) else ([3] if tier == "quick" else [2, 3, 4])
                 for k in ks:
-                    if cp["B"] < N and sc in (0, 1, 5, 6):
+                    if cp["B"] < N and sc in (0, 1, 5, 6, 7):
                         continue  # the script needs the whole stream in the buffer
                     jobs.append(J("%s-%s-s%d-k%d" % (kind, tag, sc, k), "zzH_%sScript" % kind, params=dict(cp, N=N, k=k, script=sc), stubs=SAP_STUBS))
         # second input family: streams over an arbitrary two-letter alphabet (2^N paths), which reaches longer streams
@@ -500,13 +500,13 @@ def sap_jobs(tier, kinds=("gsap", "osap"), scripts=(0, 1, 2, 3, 4), N=None, lite
             for sc in scripts:
                 ks = [0] if sc in (0, 5) else ([NB // 2] if tier == "quick" else [NB // 2 - 1, NB // 2 + 1])
                 for k in ks:
-                    if cp["B"] < NB and sc in (0, 1, 5, 6):
+                    if cp["B"] < NB and sc in (0, 1, 5, 6, 7):
                         continue
                     jobs.append(J("%s-bin-%s-s%d-k%d" % (kind, tag, sc, k), "zzH_%sScript" % kind, params=dict(cp, N=NB, k=k, script=sc, alpha=2), stubs=SAP_STUBS))
     bounds = {"stream (free bytes)": "%d arbitrary bytes (one path per order type of the bytes: which are equal, how the distinct ones are ordered)" % N,
               "stream (two letters)": "%d bytes over an arbitrary two-letter alphabet c0 < c1 (all 2^%d patterns, all byte values for the letters)" % (NB, NB),
               "scripts": "0: Write Parse*; 1: Write Parse* Write Parse*; 2: Write Parse* Shrink Write Parse*; 3: Write Parse Reset(data) Parse*; 4: Write Parse* Reset(nil) Write Parse*; "
-                         "5: Write Parse(nil) Parse*; 6: Write Parse Parse(nil) Parse* Write Parse*; flags (0 / NoTrailingLiterals) symbolic per Parse call",
+                         "5: Write Parse(nil) Parse*; 6: Write Parse Parse(nil) Parse* Write Parse*; 7: Write Parse Write Parse(nil) Parse*; flags (0 / NoTrailingLiterals) symbolic per Parse call",
               "configurations (free bytes)": {"%s/%s" % (k, t): p for k in kinds for t, p in sap_cfgs(tier, k)},
               "configurations (two letters)": {"%s/%s" % (k, t): p for k in kinds for t, p in sap_bin_cfgs(tier, k, NB)}}
     return jobs, bounds
